@@ -56,7 +56,7 @@ func (e *Explorer) journal(prefix []int) bool {
 		return true
 	}
 	entry := journalEntry(e.scen.Name, prefix)
-	if skipSet[entry] {
+	if skipSet[entry] || skipSet[e.scen.Name+"|*"] {
 		return false
 	}
 	journalFile.Truncate(0)
